@@ -221,7 +221,7 @@ fn ddmin_overrides(bin: &Path, scratch: &Scratch, property: &str, class: &str, c
     }
 }
 
-pub fn minimise_and_write(bin: &Path, scratch: &Scratch, property: &str, found: &Found, verif: &Path) -> Result<PathBuf, String> {
+pub fn minimise_and_write(bin: &Path, scratch: &Scratch, property: &str, found: &Found, verif: &Path, subdir: &str) -> Result<PathBuf, String> {
     let class = found.v.class.clone();
     let t0 = Instant::now();
     let deadline = t0 + std::time::Duration::from_secs(90);
@@ -274,7 +274,7 @@ pub fn minimise_and_write(bin: &Path, scratch: &Scratch, property: &str, found: 
         ),
         cases: replay_cases,
     };
-    let dir = verif.join("replays");
+    let dir = verif.join(subdir);
     std::fs::create_dir_all(&dir).map_err(|e| e.to_string())?;
     let h = simplan::fnv(class.as_bytes(), 5) & 0xffff_ffff;
     let path = dir.join(format!("{property}-{h:08x}.json"));
